@@ -75,7 +75,7 @@ def describe(fm: AObj) -> dict[str, Any]:
     for c in fm._f.get("ctcs", []) or []:
         ast_ = c._f.get("_ast")
         root_n = ast_._f.get("root") if isinstance(ast_, AObj) else None
-        d["constraints"].append((c._f.get("name"), tree_str(root_n)))
+        d["constraints"].append((c._f.get("name"), tree_str(root_n), root_n))
     return d
 
 
@@ -137,10 +137,15 @@ def diff(a: dict[str, Any], b: dict[str, Any], relation_order: bool = False,
     ca, cb = a["constraints"], b["constraints"]
     if len(ca) != len(cb):
         out.append(("constraint-count", f"{len(ca)} constraints written, {len(cb)} read back"))
-    for (n1, t1), (n2, t2) in zip(ca, cb):
+    for (n1, t1, x1), (n2, t2, x2) in zip(ca, cb):
         if ctc_names and n1 != n2:
             out.append(("constraint-name", f"constraint name {n1!r} -> {n2!r}"))
-        same = (t1 == t2) if ctc_compare is None else ctc_compare(t1, t2)
+        if ctc_compare is None:
+            same = t1 == t2
+        elif ctc_compare == "semantic":
+            same = semantically_equal(x1, x2)
+        else:
+            same = ctc_compare(t1, t2)
         if not same:
             out.append(("constraint", f"constraint {n1!r}: {t1} -> {t2}"))
     return out
@@ -227,3 +232,17 @@ def node_shape(n: Any, cname: Any) -> list[tuple[str, str]]:
         if r is not None:
             out.extend(node_shape(r, cname))
     return out
+
+
+def semantically_equal(a: Any, b: Any) -> bool:
+    """Logical equivalence of two expression trees by truth table over the union of their names."""
+    from .logic import names_of, truth_table
+    try:
+        if node_shape(a, "a") or node_shape(b, "b"):
+            return False
+        names = sorted(set(names_of(a)) | set(names_of(b)))
+        if set(names_of(a)) != set(names_of(b)):
+            return False
+        return truth_table(a, names) == truth_table(b, names)
+    except (KeyError, TypeError, AttributeError):
+        return False
